@@ -14,12 +14,12 @@ pkgs=""; placed=""
 IFS=',' read -ra pairs <<< "$files"
 for p in "${pairs[@]}"; do f="${p%%:*}"; d="${p##*:}"; cp "$src/$f" "$d/$f"; placed="$placed $d/$f"; pkgs="$pkgs ./$d"; done
 echo "[$id] demo without patch:"
-go test -vet=off -count=1 -run "$re" $pkgs 2>&1 | tail -3
+go test ${SEED_TEST_FLAGS:-} -timeout 300s -vet=off -count=1 -run "$re" $pkgs 2>&1 | tail -3
 without=${PIPESTATUS[0]}
 git apply "$src/patch.diff" || { echo "[$id] PATCH DOES NOT APPLY"; exit 2; }
 go build ./... || { echo "[$id] DOES NOT BUILD"; exit 2; }
 echo "[$id] demo with patch:"
-go test -vet=off -count=1 -run "$re" $pkgs 2>&1 | grep -E "^(---|FAIL|ok|panic|\s+zz_seed)" | head -12
+go test ${SEED_TEST_FLAGS:-} -timeout 300s -vet=off -count=1 -run "$re" $pkgs 2>&1 | grep -E "^(---|FAIL|ok|panic|\s+zz_seed)" | head -12
 with=${PIPESTATUS[0]}
 rm $placed
 echo "[$id] suite with patch:"
